@@ -109,6 +109,7 @@ func gammaXs(a float64) []float64 {
 }
 
 func genMathext(gen *vlib.G) {
+	genMathextRef(gen)
 	// --- incomplete gamma ---------------------------------------------------
 	for _, a := range gammaAs {
 		a := a
